@@ -45,7 +45,7 @@ GEN = [(r'\ref{KEY}', '0'), (r'\pageref{KEY}', '0'), (r'\eqref{KEY}', '(0)'),
        (r'\parencite{KEY}', '[0]'), (r'\Parencite{KEY}', '[0]'), (r'\AA', 'Å'), (r'\O', 'Ø'), (r'\OE', 'Œ'), (r'\ae', 'æ'), (r'\l', 'ł'), (r'\oe', 'œ'),
        (r'\Glspl{zzgl}', 'Glsplurals'), (r'\GLSpl{zzgl}', 'GLSPLURALS'), (r'\Glsdesc{zzgl}', 'Descr words'), (r'\GLSdesc{zzgl}', 'DESCR WORDS'),
        (r'\glstext{zzgm}', 'secondtext'), (r'\Glstext{zzgl}', 'Glstext one'), (r'\GLStext{zzgm}', 'SECONDTEXT'), (r'\Cite[KEY][]{KEY}', '[KEY 0]'), (r'\LaTeX{}', 'LaTeX'),
-       (r'\zzbody', 'Bodyone Bodytwo'), (r'\zzopt{KEY}', 'Defword'),
+       (r'\zzbody', 'Bodyone Bodytwo'), (r'\zzhd', 'About LaTeX.'), (r'\gls{zzgn}', 'LaTeX editor'), (r'\GLS{zzgn}', 'LaTeX EDITOR'), (r'\zzopt{KEY}', 'Defword'),
        (r'\gls{zzgl}', 'glstext one'), (r'\Gls{zzgl}', 'Glstext one'), (r'\GLS{zzgl}', 'GLSTEXT ONE'),
        (r'\cref{zzeq}', 'eq. (0)'), (r'\Cref{zzeq}', 'Equation (0)'), (r'\cref{zzsec}', 'section 0'),
        (r'\crefrange{zzeq}{zzer}', 'eqs. (0) to (0)'), (r'\cref{zzeq}', 'eq. (0)'), (r'\cref{zzlong}', 'see eq'),
@@ -80,6 +80,7 @@ PREAMBLE = ('\\newtheorem{zzthm}{Zzthm}\n'
             '\\newcommand{\\zzopt}[2][Defword]{#1}\n'
             '\\newcommand{\\zzpair}[2]{#1 Bodymid #2}\n'
             '\\newcommand{\\zztwice}[1]{#1 Bodyand #1}\n'
+            '\\newcommand{\\zzhd}{\\section{About \\LaTeX}}\n'
             '\\newcommand{\\zzcur}{}\n'
             '\\newcommand{\\zzstore}[1]{\\renewcommand{\\zzcur}{#1 Bodystored}#1}\n'
             '\\usepackage[poorman]{cleveref}\n'
@@ -94,9 +95,11 @@ SED = (r's/\\cref{zzeq}/\\cref@equation@name \\nobreakspace \\textup {(\\ref {zz
        r's/\\Cref@equation@name /Equation/g' '\n'
        r's/\\cref@section@name /section/g' '\n')
 DEFS = ('\\gls@defglossaryentry{zzgl}{name={Glsname},text={glstext one},plural={glsplurals},description={descr\n                           words}}\n'
-        '\\gls@defglossaryentry{zzgm}{name={Other},text={secondtext},plural={seconds},description={d}}\n')
+        '\\gls@defglossaryentry{zzgm}{name={Other},text={secondtext},plural={seconds},description={d}}\n'
+        '\\gls@defglossaryentry{zzgn}{name={N},text={\\LaTeX{} editor},plural={\\TeX{} editors},description={d}}\n')
 WORD_RE = re.compile(r'W[éäж]?[a-j]{3}[qé]')
 CW_END = re.compile(r'\\[a-zA-Z@]+$')
+ASCII_LETTERS = 'abcdefghijklmnopqrstuvwxyzABCDEFGHIJKLMNOPQRSTUVWXYZ'
 
 
 def item(flow):
@@ -107,6 +110,7 @@ def item(flow):
         st.tuples(st.just('vanish'), st.sampled_from(VANISH)),
         st.tuples(st.just('gen'), st.sampled_from(GEN)),
         st.tuples(st.just('blankgen'), st.sampled_from(BLANKGEN)),
+        st.tuples(st.just('cwglue'), st.sampled_from([(r'\ss', 'ß'), (r'\LaTeX', 'LaTeX'), (r'\o', 'ø'), (r'\TeX', 'TeX')]), st.sampled_from('äéжö')),
         st.just(('footcite',)),
         st.just(('lstinput',)),
         st.tuples(st.just('pass'), st.sampled_from(PASS), flow, inner, inner),
@@ -186,7 +190,7 @@ class Model:
             return
         tail = self.tail
         # keep tokenisation as rendered: never let two pieces fuse into another token
-        if ((s[0].isalpha() or s[0] == '@') and CW_END.search(tail)) or \
+        if ((s[0] in ASCII_LETTERS or s[0] == '@') and CW_END.search(tail)) or \
                 (s[0] in "-'`$" and tail.endswith(s[0])):
             self.src.append('{}')
             self.n += 2
@@ -266,17 +270,28 @@ def render_item(m, it):
         w = m.word()
         off = m.emit(w)
         m.cur().append(('w', w, off, 'word'))
+    elif k == 'vanish' and m.flags.get('no_biblatex') and it[1].startswith(('\\printbibliography', '\\addbibresource')):
+        render_item(m, ('word',))
     elif k == 'vanish':
         fill(m, it[1])
         m.cur().append(('v', it[1][-1].isalpha()))
         m.features.add('vanish')
+    elif k == 'cwglue':
+        # a control word ends at the first character that is no ASCII letter: \\ssänderung is \\ss + änderung
+        lo = m.n
+        m.emit(it[1][0])
+        m.cur().append(('g', it[1][1], lo, m.n, False, 'wordlike'))
+        w = it[2] + m.word()
+        off = m.emit(w)
+        m.cur().append(('w', w, off, 'word'))
+        m.features.add('gen')
     elif k == 'blankgen':
         # macros that leave one generated blank (documented as such in list-of-macros / parameters)
         fill(m, it[1])
         m.cur().append(('sep', 'S', True))
         m.cur().append(('v', it[1][-1].isalpha() or it[1].startswith('\\bibitem')))
         m.features.add('blank-generating-macro')
-    elif k == 'footcite' and (m.no_detach or m.in_head):
+    elif k == 'footcite' and (m.no_detach or m.in_head or m.flags.get('no_biblatex')):
         render_item(m, ('word',))
     elif k == 'footcite':
         lo = m.n
@@ -288,6 +303,8 @@ def render_item(m, it):
         fill(m, '\\lstinputlisting[KEY]{KEY}')
         m.cur().append(('sep', 'P', True))
         m.cur().append(('v', False))
+    elif k == 'gen' and m.flags.get('no_biblatex') and it[1][0].startswith(('\\parencite', '\\Parencite', '\\Cite')):
+        render_item(m, ('word',))
     elif k == 'gen':
         lo = m.n
         src, txt = it[1]
